@@ -250,5 +250,8 @@ pub fn impl_search(expr: &str, doc: &Value) -> Out {
 }
 
 pub fn silence_panics() {
+    if std::env::var("VERIF_SHOW_PANICS").is_ok() {
+        return;
+    }
     std::panic::set_hook(Box::new(|_| {}));
 }
